@@ -24,7 +24,16 @@ type sym struct {
 	k  symKind
 	w  int             // BV width
 	gk types.BasicKind // Go kind of an integer term (signedness)
+	// origin: for a floating-point term obtained by an exact conversion of a signed integer term of at
+	// most 53 significant bits, that integer term (so formatting and converting back need no FP reasoning)
+	origin *sym
+	ow     int // number of significant bits (sign included) of origin
 }
+
+// fpstr is the text strconv.FormatFloat(f, 'f', -1, 64) of a symbolic double: opaque, except that parsing
+// it yields f again (shortest-round-trip property of the formatter, trusted) and that two such texts are
+// equal iff the doubles are bit-identical.
+type fpstr struct{ f *sym }
 
 func (s *sym) String() string { return s.e }
 
@@ -34,7 +43,7 @@ type sstr []value
 
 func isSym(v value) bool {
 	switch v.(type) {
-	case *sym, sstr, numstr:
+	case *sym, sstr, numstr, fpstr:
 		return true
 	}
 	return false
@@ -117,13 +126,31 @@ func lift(v value, like *sym) *sym {
 		}
 		return mkBool("false")
 	case float64:
-		return &sym{e: fpConst(x), k: symFP}
+		r := &sym{e: fpConst(x), k: symFP}
+		if x == math.Trunc(x) && math.Abs(x) < 1<<52 && !(x == 0 && math.Signbit(x)) {
+			n := int64(x)
+			r.origin = &sym{e: bvConst(uint64(n), 64), k: symBV, w: 64, gk: types.Int64}
+			r.ow = bitsNeeded(n)
+		}
+		return r
 	}
 	if gk := goKindOf(v); gk != types.Invalid {
 		w, _ := kindWidth(gk)
 		return &sym{e: bvConst(uint64(asInt64(v)), w), k: symBV, w: w, gk: gk}
 	}
 	panic(fmt.Sprintf("lift: cannot lift %T", v))
+}
+
+func bitsNeeded(n int64) int {
+	if n < 0 {
+		n = ^n
+	}
+	w := 1
+	for n > 0 {
+		w++
+		n >>= 1
+	}
+	return w
 }
 
 func fpConst(f float64) string {
@@ -230,6 +257,8 @@ func toSstr(v value) sstr {
 		return x
 	case numstr:
 		return materialise(x)
+	case fpstr:
+		panic(unsupported("text of a formatted symbolic double is needed"))
 	case string:
 		r := make(sstr, len(x))
 		for i := 0; i < len(x); i++ {
@@ -254,6 +283,11 @@ func normStr(s sstr) value {
 }
 
 func strEq(a, b value) value {
+	if fa, ok := a.(fpstr); ok {
+		if fb, ok := b.(fpstr); ok {
+			return simplifyBool(mkBool("(= " + fa.f.e + " " + fb.f.e + ")"))
+		}
+	}
 	if na, ok := a.(numstr); ok {
 		if nb, ok := b.(numstr); ok {
 			return simplifyBool(mkBool("(= " + na.n.e + " " + nb.n.e + ")"))
@@ -349,11 +383,43 @@ func symBinop(op token.Token, t types.Type, x, y value) value {
 			return simplifyBool(symOr(a, b))
 		}
 	case symFP:
+		if a.origin != nil && b.origin != nil {
+			// both operands are exactly converted integers: decide on the integers, no FP reasoning needed
+			cmp := func(f string) value { return simplifyBool(mkBool("(" + f + " " + a.origin.e + " " + b.origin.e + ")")) }
+			switch op {
+			case token.EQL:
+				return cmp("=")
+			case token.NEQ:
+				return notVal(cmp("="))
+			case token.LSS:
+				return cmp("bvslt")
+			case token.LEQ:
+				return cmp("bvsle")
+			case token.GTR:
+				return cmp("bvsgt")
+			case token.GEQ:
+				return cmp("bvsge")
+			}
+		}
+		arith := func(fop, bop string) value {
+			r := &sym{e: "(" + fop + " RNE " + a.e + " " + b.e + ")", k: symFP}
+			if a.origin != nil && b.origin != nil {
+				ow := a.ow
+				if b.ow > ow {
+					ow = b.ow
+				}
+				if ow+1 <= 53 { // the exact result still fits a double's significand
+					r.origin = &sym{e: "(" + bop + " " + a.origin.e + " " + b.origin.e + ")", k: symBV, w: 64, gk: types.Int64}
+					r.ow = ow + 1
+				}
+			}
+			return r
+		}
 		switch op {
 		case token.ADD:
-			return &sym{e: "(fp.add RNE " + a.e + " " + b.e + ")", k: symFP}
+			return arith("fp.add", "bvadd")
 		case token.SUB:
-			return &sym{e: "(fp.sub RNE " + a.e + " " + b.e + ")", k: symFP}
+			return arith("fp.sub", "bvsub")
 		case token.EQL:
 			return mkBool("(fp.eq " + a.e + " " + b.e + ")")
 		case token.NEQ:
